@@ -1,6 +1,8 @@
+\* regression: the fallback form before commit 'fix: CLI writes the adjusted colour for var(--x, fallback) text colours'
+\* TLC must report ReportedIsWrittenModuloF6 violated
 SPECIFICATION Spec
 CONSTANTS RootPostOverwrites = FALSE
-          FallbackWritten = TRUE
+          FallbackWritten = FALSE
           NR = 2
 INVARIANT Partition
 INVARIANT CardMeetsTarget
